@@ -73,6 +73,9 @@ type Term struct {
 	// for atoms that are defined by a function of other terms (div/rem
 	// encodings): evaluation uses def instead of the model
 	def *Term
+	// quotient atoms: q = divRoot / divBy (cumulative over nested divisions)
+	divRoot *Term
+	divBy   uint64
 }
 
 func (t *Term) IsConst() bool { return t.op == OpConst }
@@ -366,6 +369,14 @@ func (tt *termTable) Bin(op Op, a, b *Term) *Term {
 		if b.IsConst() && a.op == OpAdd && a.args[1].IsConst() {
 			return tt.Bin(OpAdd, a.args[0], tt.Const(w, a.args[1].val+b.val))
 		}
+		// Horner recomposition: q*c + r == x for the quotient/remainder atoms
+		// of x by the constant c (their defining side constraint)
+		if x := hornerRecompose(a, b); x != nil {
+			return x
+		}
+		if x := hornerRecompose(b, a); x != nil {
+			return x
+		}
 	case OpSub:
 		if b.IsConst() && b.val == 0 {
 			return a
@@ -489,6 +500,21 @@ func (tt *termTable) Un(op Op, a *Term) *Term {
 		return a.args[0]
 	}
 	return tt.mk(op, a.W, 0, "", []*Term{a})
+}
+
+// hornerRecompose recognises mul(q, c) + r with q, r = UDivRemConst(x, c).
+func hornerRecompose(m, r *Term) *Term {
+	if m.op != OpMul || !m.args[1].IsConst() || r.op != OpVar || r.def == nil || r.def.op != OpURem {
+		return nil
+	}
+	q := m.args[0]
+	if q.op != OpVar || q.def == nil || q.def.op != OpUDiv {
+		return nil
+	}
+	if q.def.args[0] != r.def.args[0] || q.def.args[1] != r.def.args[1] || q.def.args[1].val != m.args[1].val {
+		return nil
+	}
+	return q.def.args[0]
 }
 
 // Cmp builds a comparison (Bool result).
@@ -732,6 +758,10 @@ func (tt *termTable) Zext(a *Term, w uint8) *Term {
 	if a.op == OpZext {
 		return tt.Zext(a.args[0], w)
 	}
+	// zext(extract[k-1:0](x)) == x when x already fits in k bits
+	if a.op == OpExtract && uint8(a.val) == 0 && a.args[0].W == w && a.args[0].umax <= mask(a.W) {
+		return a.args[0]
+	}
 	return tt.mk(OpZext, w, uint64(w-a.W), "", []*Term{a})
 }
 
@@ -828,6 +858,23 @@ func (tt *termTable) UDivRemConst(x *Term, c uint64) (q, r *Term) {
 			tt.mk(OpUle, 0, 0, "", []*Term{q, tt.Const(w, mask(w)/c)}),
 			tt.mk(OpUle, 0, 0, "", []*Term{tt.mk(OpMul, w, 0, "", []*Term{q, cc}), x}),
 			tt.mk(OpEq, 0, 0, "", []*Term{tt.mk(OpSub, w, 0, "", []*Term{x, tt.mk(OpMul, w, 0, "", []*Term{q, cc})}), r}),
+		}
+		// cumulative division lemma: for nested divisions x = root/c0 the
+		// quotient also satisfies q = root/(c0*c); stating it directly spares
+		// the solver a chain of multiplications
+		q.divRoot, q.divBy = x, c
+		if x.op == OpVar && x.divRoot != nil {
+			hi, cum := bits.Mul64(x.divBy, c)
+			if hi == 0 && cum <= mask(w) {
+				root := x.divRoot
+				q.divRoot, q.divBy = root, cum
+				cumT := tt.Const(w, cum)
+				prod := tt.mk(OpMul, w, 0, "", []*Term{q, cumT})
+				side = append(side,
+					tt.mk(OpUle, 0, 0, "", []*Term{q, tt.Const(w, mask(w)/cum)}),
+					tt.mk(OpUle, 0, 0, "", []*Term{prod, root}),
+					tt.mk(OpUlt, 0, 0, "", []*Term{tt.mk(OpSub, w, 0, "", []*Term{root, prod}), cumT}))
+			}
 		}
 		q.side = side
 		r.side = side
